@@ -379,5 +379,31 @@ CACHE_CLASSES.append(
     Class("raw_cache_partial_entry", ("C15",), ("crashwrite",), lambda i: i.get("flavour") == "raw", _raw_neutral,
           "raw byte cache (pkg/cache.Cache): the entry is written in place; a write that fails part-way (EFBIG, disk full) or is interrupted leaves the fragment, and the next call returns those bytes with err == nil and no real invocation"))
 
-CLASSES = CLASSES + ALG_CLASSES + SPLIT_CLASSES + CACHE_CLASSES
+def _unclean(i):
+    t = i.get("typed", "")
+    d = t[: t.rfind("/") + 1] if "/" in t else ""
+    return "//" in d or "/./" in d or "/../" in d or d.endswith("/../") or (d.find("./", 1) > 0 and "../" not in d)
+
+
+def _clean_typed(i):
+    import posixpath
+    o = copy.deepcopy(i)
+    t = o.get("typed", "")
+    if "/" in t:
+        d, seg = t[: t.rfind("/") + 1], t[t.rfind("/") + 1:]
+        lead = "./" if d.startswith("./") else ""
+        c = posixpath.normpath(d)
+        c = "" if c == "." else c + "/"
+        if c.startswith("//"):
+            c = c[1:]
+        o["typed"] = lead + c + seg
+    return o
+
+
+FILES_CLASSES = [
+    Class("files_unclean_dir_part", ("C16",), ("files",), _unclean, _clean_typed,
+          "ActionFiles / ActionDirectories rebuild the typed directory part with filepath.Dir, i.e. cleaned: for typed `a//b`, `a/./b`, `a/../a/b` the candidates no longer extend what was typed and nothing is offered"),
+]
+
+CLASSES = CLASSES + ALG_CLASSES + SPLIT_CLASSES + CACHE_CLASSES + FILES_CLASSES
 BY_ID = {c.id: c for c in CLASSES}
